@@ -3,9 +3,9 @@
 for id in "$@"; do
   src=/tmp/seed_out/$id
   n=1
-  while [ -d /verif/seeded/$id-s$n ]; do n=$((n+1)); done
   for k in "" 2 3; do
     [ -f $src/patch$k.diff ] || continue
+    while [ -d /verif/seeded/$id-s$n ]; do n=$((n+1)); done
     d=/verif/seeded/$id-s$n; mkdir -p $d
     cp $src/patch$k.diff $d/patch.diff
     [ -f $src/demo$k.py ] && cp $src/demo$k.py $d/demo.py
